@@ -5,5 +5,6 @@ CONSTANTS
   PopMode = "identity"
   MaxSends = 1
   DirectSenders <- D1
+  Faults = FALSE
 PROPERTY Terminates
 CHECK_DEADLOCK FALSE
